@@ -80,7 +80,7 @@ def check_differential(run, case, fronts):
             else:
                 kinds['front-ends-differ:%s-vs-%s' % (ref, f)] = text
     # against the model, in the clean region of the reference front-end
-    if not regs_by_front[ref] and not case.get('inserts'):
+    if not regs_by_front[ref] and not case.get('inserts') and not case.get('no_model'):
         run.count('clean_region_cases')
         ex = results[ref]['ex']
         problems, matched = SH.match(case['framing'], ex['exp'], ex['out_frames'])
@@ -196,6 +196,10 @@ def fine_isolation(run, r, uniq, n, prop='C17'):
         case = isolation_case(r, framing, uniq, 2 + (k % 3 == 2), common=(k % 2 == 1))
         # whole frames only (one per read): what is under test is the interleaving of the handlers, not chunking
         seed = r.getrandbits(32)
+        if k % 2 == 0:
+            # idle periods longer than the receive timeout (the handler resets its framer and carries on), before or between the frames
+            case['idle'] = [sorted(set([0] + [r.randrange(len(c) + 1) for _ in range(r.randint(0, 2))])) for c in case['conns']]
+            run.count('fine_grained_runs_with_idle_timeouts')
         fine_one(run, case, framing, seed)
 
 
@@ -203,6 +207,12 @@ def fine_one(run, case, framing, seed):
     if True:
         repo.reset_globals()
         layout, conns = case['layout'], case['conns']
+        if case.get('idle'):
+            import socket
+            conns = [list(c) for c in conns]
+            for c, idle in zip(conns, case['idle']):
+                for at in sorted(idle, reverse=True):
+                    c.insert(at, socket.timeout('timed out'))
         solo = []
         for chunks in conns:
             ctx, model, blocks = SM.build(layout)
@@ -285,6 +295,33 @@ def run(run):
         run.case(h64(('diff-' + label, repr(case))), True,
                  sample={'kind': 'differential', 'class': label, 'fronts': tcp_fronts, 'pid': case.get('pid'), 'inserts': case.get('inserts'), 'verdict': 'identical' if ok else 'differs'},
                  sample_class=('diff-' + label,))
+    # register cells holding what no response can carry (70000, -5, 1.5 - an application wrote them into its store): whatever a
+    # front-end does when it cannot encode the response, the others do the same (bytes, closing, later requests, final store)
+    for i in range(run.scale(24, 2400)):
+        case = gen_case(r, 'tcp', uniq, per_read=1)
+        case['no_model'] = True
+        bad_cells = 0
+        for lay in case['layout']['units'].values():
+            for t in ('h', 'i'):
+                sp = lay[t]
+                if t in lay['alias']:
+                    continue
+                if sp['type'] == 'seq' and sp['values']:
+                    for _ in range(2):
+                        sp['values'][r.randrange(len(sp['values']))] = r.choice([70000, -5, 1.5, 65536, -1])
+                        bad_cells += 1
+                elif sp['type'] == 'sparse' and sp['cells']:
+                    k0 = r.choice(sorted(sp['cells']))
+                    sp['cells'][k0] = r.choice([70000, -5, 1.5])
+                    bad_cells += 1
+        fronts = (['sync-tcp', 'aio-tcp', 'tw-tcp'], DGRAM_FRONTS)[i % 2]
+        if i % 2:
+            case['flags']['broadcast_enable'] = False
+        ok = check_differential(run, case, fronts)
+        run.count('differential_unencodable_cases')
+        run.case(h64(('diff-unencodable', repr(case))), True,
+                 sample={'kind': 'differential', 'class': 'store cells no response can carry', 'fronts': fronts, 'cells': bad_cells, 'verdict': 'identical' if ok else 'differs'},
+                 sample_class=('diff-unencodable', i % 2))
     for i in range(n):
         case = gen_case(r, 'tcp', uniq, per_read=1 if i % 3 else 2)
         case['flags']['broadcast_enable'] = bool(i % 4 == 0)
